@@ -137,8 +137,8 @@ func (ctx *Context) IsCalculateExists() bool {
 }
 
 func (ctx *Context) RunAfterParsed() error {
-	if ctx.parseFailed {
-		// 最近一次 Parse 失败了: 留在 ctx.code 里的是更早那次解析的代码，而 parser 已经换成了新文本，
+	if ctx.parseFailed || ctx.parser == nil {
+		// 还没有 Parse 过，或者最近一次 Parse 失败了: 留在 ctx.code 里的是更早那次解析的代码，而 parser 已经换成了新文本，
 		// 拿旧代码对着新文本执行会得到错位的 Matched/RestInput 和计算过程(GetDetailText 甚至越界 panic)
 		ctx.Error = errors.New("上一次解析没有成功，没有可以执行的代码")
 		return ctx.Error
